@@ -64,20 +64,21 @@ void h_parse(void)
         if (field[j] == 0) break;
         if (field[j] == '-') { dash = j; break; }
     }
-    int kind = 0;             /* 0 invalid, 1 suffix, 2 open, 3 closed */
+    int kind = 0;             /* 0 invalid, 1 suffix, 2 open, 3 closed, 4 closed with last-byte-pos == INT64_MAX (F2 zone) */
     if (flen >= 2) {
         if (field[0] == '-') {
             if (ok0 && v0 >= 0) kind = 1;
         } else if (dash >= 0 && dash < flen) {
             if (ok0 && v0 >= 0) {
                 if (dash + 1 < flen) {
-                    if (ok1 && v1 >= 0 && v1 >= v0) kind = 3;
+                    if (ok1 && v1 >= 0 && v1 >= v0) kind = v1 < INT64_MAX ? 3 : 4;
                 } else
                     kind = 2;
             }
         }
     }
-    ENS((r != 0) == (kind != 0), "parseInit accepts exactly suffix / open / closed specs whose numbers parse and are ordered");
+    if (kind != 4)
+        ENS((r != 0) == (kind != 0), "parseInit accepts exactly suffix / open / closed specs whose numbers parse and are ordered");
     if (kind == 1) {
         ENS(po_arg[0] == field + 1 && po_calls == 1, "suffix: the length is read from behind the '-'");
         ENS(off == -1 && len == v0, "suffix spec: offset == -1, length == suffix-length");
@@ -88,12 +89,13 @@ void h_parse(void)
     }
     if (kind == 3) {
         ENS(po_arg[0] == field && po_arg[1] == field + dash + 1 && po_calls == 2, "closed: both positions are read, the second from behind the '-'");
-        if (v1 < INT64_MAX) {
-            ENS(off == v0 && (wide)len == (wide)v1 - (wide)v0 + 1, "closed spec (last-byte-pos < INT64_MAX): offset == first, length == last - first + 1");
-        } else {
-            /* candidate defect F2: last_pos + 1 overflows; whatever the repair does, it must not produce a wrong length */
-            ENS(off == v0 && (v0 == 0 || (wide)len == (wide)v1 - (wide)v0 + 1), "closed spec with last-byte-pos == INT64_MAX (F2): length == last - first + 1 where that fits");
-        }
+        ENS(off == v0 && (wide)len == (wide)v1 - (wide)v0 + 1, "closed spec: offset == first-byte-pos, length == last - first + 1");
+    }
+    if (kind == 4) {
+        /* candidate defect F2: last - first + 1 may not fit and last_pos + 1 overflows.  No body has a byte at position
+         * INT64_MAX, so a repair may reject the spec or stop one byte short; it must not produce anything else. */
+        ENS(r == 0 || (off == v0 && ((wide)len == (wide)v1 - (wide)v0 + 1 || (wide)len == (wide)v1 - (wide)v0) && len > 0),
+            "F2 zone (last-byte-pos == INT64_MAX): rejected, or offset == first and length covers first..INT64_MAX-1 at least");
     }
     RCH(kind == 1 && r, "suffix spec accepted");
     RCH(kind == 2 && r, "open spec accepted");
